@@ -194,7 +194,8 @@ def own_rates(case, arr):
     if case["kind"] == "grid" and (case["space"]["w"], case["space"]["h"], case["space"]["d"]) != \
             (arr["space"]["w"], arr["space"]["h"], arr["space"]["d"]):
         edge = None
-    return stoch_gen.Rates(dict(arr, k=k, D=D), edge=edge)
+    sub, sto, nr = stoch_gen.own_stoichiometry(case["net"])
+    return stoch_gen.Rates(dict(arr, k=k, D=D, sub=sub, sto=sto, nr=nr), edge=edge)
 
 
 def apply_effect(x, eff, n, mult=1):
